@@ -680,6 +680,9 @@ def run(ctx):
                              "dt": dt, "listed": listed}
                         if not hw.world_ok(w):
                             continue
+                        if ctx.thorough and (dtype, dt) != ("float64", "dyadic") and (
+                                listed == "bs" or (not call and kind != "european")):
+                            continue   # dtype / dt variants: one listing, puts for the European only
                         if ctx.quick:
                             minor = ul in ("merton", "kou", "cir", "vasicek")
                             if (dtype, dt) != ("float64", "dyadic") and (kind not in ("european", "lookback")
